@@ -298,7 +298,18 @@ def m_split(ip, s, *a, **k):
                 if r is not shape.UNKNOWN:
                     return [mkstr(shape.concat(x), True) for x in r]
         raise Unsupported("split(None, 1) on a string whose structure does not decide it")
+    if isinstance(s, SStr) and not k and len(a) == 1 and isinstance(a[0], (str, bytes)) and len(a[0]) == 1:
+        # s.split(c) of a shaped string whose symbolic pieces cannot contain c: decided on the structure
+        from . import shape
+        ps = shape.pieces_of(s.t)
+        if ps is not None:
+            c = a[0].decode("latin-1") if isinstance(a[0], bytes) else a[0]
+            r = shape.split_char(ps, c)
+            if r is not shape.UNKNOWN:
+                return [mkstr(shape.concat(x), s.isbytes) for x in r]
     if a or k or not isinstance(s, SStr):
+        if core.TRACE:
+            print("[pyvc] split not decided on", str(z3.simplify(s.t))[:600] if isinstance(s, SStr) else s, a, flush=True)
         raise Unsupported("split(sep) on symbolic string")
     arr = F_split_set(s.t)
     core.cur().ghost.setdefault("split_apps", []).append((s.t, arr))
